@@ -467,7 +467,7 @@ Proof.
     destruct (nth_error (l_atts s) k) as [a|] eqn:Hk; [|discriminate].
     destruct (Nat.leb 1 (a_pc a) && Nat.ltb (a_pc a) (ready_pc (a_kind a))) eqn:Ec; [|discriminate].
     apply andb_true_iff in Ec. destruct Ec as [E1 E2]. apply Nat.leb_le in E1. apply Nat.ltb_lt in E2.
-    assert (Hr4 : ready_pc (a_kind a) <= 4) by (destruct (a_kind a); simpl; lia).
+    assert (Hr4 : ready_pc (a_kind a) <= 5) by (destruct (a_kind a); simpl; lia).
     assert (Hnd : a_pc a <> pc_done) by (unfold pc_done; lia).
     destruct ok.
     + destruct (akind_eqb (a_kind a) KRelay && (Nat.eqb (a_pc a) 1 || Nat.eqb (a_pc a) 3)); inversion Hap; subst.
